@@ -197,12 +197,12 @@ Definition select_bit (op op2 : Z) : tag :=
 (* ------------------------------------------------------------------ primitives *)
 Definition u8add (a b : Z) : Z := (a + b) mod 256.
 
-(* Cpu::fetch : unwraps the two bus reads *)
+(* Cpu::fetch : an unmapped PC yields opcode 0 and sets the fetch-fault flag *)
 Definition fetch : M Z := fun s =>
   let p := Z.land (pc s) 0xfffffffe in
-  match bus_read (cbus s) p, bus_read (cbus s) (p + 1) with
+  match bus_read (cbus s) p, bus_read (cbus s) (wrap 32 (p + 1)) with
   | Some h, Some l => Ok (Z.lor (Z.shiftl h 8) l) (set_pc (wrap 32 (pc s + 2)) (set_opc p s))
-  | _, _ => Panic
+  | _, _ => Ok 0 (set_fault true (set_pc (wrap 32 (pc s + 2)) (set_opc p s)))    (* fetch_fault: reported by run() *)
   end.
 Definition fetch32 : M Z := h <- fetch ;; l <- fetch ;; ret (Z.lor (Z.shiftl h 16) l).
 
@@ -548,4 +548,15 @@ Definition exec (op : Z) : M Z :=
   | t => run_tag t op 0 0
   end.
 
-Definition step : M Z := op <- fetch ;; exec op.
+(* fetch + exec as run() (and the verification hook) perform them: a fetch fault turns the step into an error *)
+Definition step : M Z := fun s =>
+  match fetch s with
+  | Ok op s1 =>
+    match exec op s1 with
+    | Ok n s2 => if fault s2 then Err else Ok n s2
+    | Err => Err
+    | Panic => Panic
+    end
+  | Err => Err
+  | Panic => Panic
+  end.
